@@ -138,6 +138,18 @@ class MockArray:
         self.d[key] = v
 
 
+class MockMat:
+    """n x n integer matrix for the whole-function evaluation of graph_to_numpy (elementwise operations only)"""
+    def __init__(self, n, rows=None):
+        self.n = n
+        self.rows = rows if rows is not None else [[0] * n for _ in range(n)]
+
+
+class Mask:
+    def __init__(self, cells):
+        self.cells = cells
+
+
 class MockModule:
     def __init__(self, name, attrs):
         self.name, self.attrs = name, attrs
@@ -233,6 +245,9 @@ class Interp:
             key = self.ev(tgt.slice, env)
             if isinstance(obj, MockArray):
                 obj.set(key, val)
+            elif isinstance(obj, MockMat) and isinstance(key, Mask) and isinstance(val, int) and not isinstance(val, bool):
+                for i, j in key.cells:
+                    obj.rows[i][j] = val
             elif isinstance(obj, dict):
                 obj[key] = val
             else:
@@ -295,6 +310,12 @@ class Interp:
             return self.binop(e.op, self.ev(e.left, env), self.ev(e.right, env), e)
         if isinstance(e, ast.Compare):
             left = self.ev(e.left, env)
+            if isinstance(left, MockMat):
+                if len(e.ops) == 1 and isinstance(e.ops[0], ast.NotEq):
+                    rv = self.ev(e.comparators[0], env)
+                    if isinstance(rv, int) and not isinstance(rv, bool):
+                        return Mask([(i, j) for i in range(left.n) for j in range(left.n) if left.rows[i][j] != rv])
+                self.err(e, "comparison on an array")
             for op, rn in zip(e.ops, e.comparators):
                 right = self.ev(rn, env)
                 if not self.cmp(op, left, right, e):
@@ -340,6 +361,10 @@ class Interp:
         self.err(e, "expression %s" % type(e).__name__)
 
     def binop(self, op, a, b, node):
+        if isinstance(a, MockMat) or isinstance(b, MockMat):
+            if isinstance(op, ast.Add) and isinstance(a, MockMat) and isinstance(b, MockMat) and a.n == b.n:
+                return MockMat(a.n, [[x + y for x, y in zip(ra, rb)] for ra, rb in zip(a.rows, b.rows)])
+            self.err(node, "array arithmetic other than elementwise +")
         if isinstance(a, bool) or isinstance(b, bool):
             self.err(node, "arithmetic on bool")
         if isinstance(op, ast.Add) and isinstance(a, str) and isinstance(b, str):
@@ -775,6 +800,37 @@ def translate(repo):
     # ---- numpy (decoder only: the encoder is array arithmetic, no per-pair chain)
     it = Interp(os.path.join(exp, "numpy.py"), base)
     T["sha"]["numpy.py"] = hashlib.sha1(it.src.encode()).hexdigest()[:12]
+    # encoder: the whole function is evaluated on the two-node graph; numpy / networkx are the elementwise mocks below
+    def _zeros(shape):
+        if not (isinstance(shape, tuple) and len(shape) == 2 and shape[0] == shape[1] and isinstance(shape[0], int)):
+            raise TranslationError("T:numpy.py: np.zeros shape")
+        return MockMat(shape[0])
+
+    def _to_numpy_array(graph, nodelist=None):
+        if not isinstance(graph, MockLayer) or nodelist != graph.g.nodes_:
+            raise TranslationError("T:numpy.py: nx.to_numpy_array must be called on a layer with nodelist=<the graph's node list>")
+        return MockMat(len(nodelist), [[1 if (a != b and graph.has_edge(a, b)) else 0 for b in nodelist] for a in nodelist])
+    it.globs["np"] = MockModule("np", {"mod": ("py", lambda a, b: a % b), "zeros": ("py", _zeros)})
+    it.globs["nx"] = MockModule("nx", {"to_numpy_array": ("py", _to_numpy_array)})
+    fd = _func(it, "graph_to_numpy")
+    T["enc_numpy"] = {}
+    for cls in layers:
+        rows = []
+        for k in range(64):
+            if T["enc_clearn"][cls][k][0] == "na":
+                rows.append(("na", None, []))
+                continue
+            it.trace = []
+            try:
+                res = it.apply(fd, [MockGraph(cls, layers[cls], k)], {}, fd)
+            except PyExc as e:
+                rows.append(("raise", e.name, sorted(set(it.trace))))
+                continue
+            if not (isinstance(res, MockMat) and res.n == 2 and res.rows[0][0] == 0 and res.rows[1][1] == 0):
+                raise TranslationError("T:numpy.py: graph_to_numpy does not return the 2x2 zero-diagonal array")
+            rows.append(("pair", (res.rows[0][1], res.rows[1][0]), sorted(set(it.trace))))
+        T["enc_numpy"][cls] = rows
+
     fd = _func(it, "numpy_to_graph")
     loop = _find_for(it, fd.body, "idx,jdx", "np.argwhere(arr!=0)")
     T["dec_numpy"] = {}
@@ -910,6 +966,8 @@ def emit(T, repo_label):
                      "(t[i,j]+1)*8 + (t[j,i]+1)"))
     co.append(_table("gen_dec_pcalg", T["dec_pcalg"], _dec_row, "dec_out",
                      "pcalg_to_graph, body of the argwhere loop", "arr[i,j]*4 + arr[j,i]"))
+    co.append(_table("gen_enc_numpy", T["enc_numpy"], _enc_row, "enc_out",
+                     "graph_to_numpy, whole function on the two-node graph [u, v]: (arr[u,v], arr[v,u])", psdoc))
     co.append(_table("gen_dec_numpy", T["dec_numpy"], _dec_row, "dec_out",
                      "numpy_to_graph, body of the argwhere loop (one cell)", "arr[i,j] in 0..33"))
     co.append(_table("gen_enc_tetrad", T["enc_tetrad"], _str_row, "str_out",
